@@ -90,6 +90,7 @@ type FuncContract struct {
 	SharedInv []*Clause // one-state invariants of the shared state, holding between atomic steps
 	PartialWhen *SNode // partial when <cond over the entry state>: unsupported statements may be reached exactly under cond
 	Partial   bool // statements outside the supported subset must be unreachable (obligation) instead of failing the function
+	Allocates int  // allocates N: the function allocates exactly N objects/arrays (checked at every exit)
 	NoAlloc   bool // the function allocates nothing (checked at every exit; callers keep their allocation counter)
 	NoMerge   bool
 	InstName  string
@@ -131,7 +132,7 @@ var clauseKeywords = map[string]bool{
 	"decreases": true, "loop": true, "invariant": true, "at": true, "assert": true, "ghost": true,
 	"mode": true, "trusted": true, "inline": true, "pure": true, "axiom": true, "global": true,
 	"type": true, "lemma": true, "props": true, "wraps": true, "unroll": true, "uses": true,
-	"guarded_by": true, "noterm": true, "noalloc": true, "rely": true, "guarantee": true, "sharedinv": true, "ghostfield": true, "partial": true, "nomerge": true, "traced": true, "bind": true, "ghostparam": true, "recspec": true, "opaque": true, "assume": true, "havoc": true,
+	"guarded_by": true, "noterm": true, "noalloc": true, "allocates": true, "rely": true, "guarantee": true, "sharedinv": true, "ghostfield": true, "partial": true, "nomerge": true, "traced": true, "bind": true, "ghostparam": true, "recspec": true, "opaque": true, "assume": true, "havoc": true,
 	"split": true, "stdlib": true, "defspec": true, "ih": true, "apply": true,
 }
 
@@ -356,6 +357,8 @@ func parseContractFile(path string, pkg string, pc *PkgContracts) error {
 			cur.NoTerm = true
 		case "noalloc":
 			cur.NoAlloc = true
+		case "allocates":
+			fmt.Sscanf(rest, "%d", &cur.Allocates)
 		case "partial":
 			cur.Partial = true
 			if strings.HasPrefix(rest, "when ") {
@@ -569,7 +572,9 @@ func parseContractFile(path string, pkg string, pc *PkgContracts) error {
 					return bad("ghost name = expr")
 				}
 				c.Name = strings.TrimSpace(rest[:k])
-				if strings.Contains(c.Name, ".") {
+				if strings.HasPrefix(c.Name, "all ") {
+					// ghost all T.f = <sequence expr>: bulk update of a ghost field of EVERY object of type T
+				} else if strings.Contains(c.Name, ".") {
 					// ghost x.f = e : assignment to a ghost field
 					lhs, err := parseSpec(c.Name)
 					if err != nil || lhs.Op != "sel" {
